@@ -25,6 +25,12 @@ environment; it is always either `footprint args` or `none` (`lockPlan_cases`). 
 `footprint` (the larger one) AND for `lockPlan` (`Foot.exec_lockPlan`: a refused call does not consult the keyspace, `Foot.table_refuse`);
 the driver compares the Go lock trace of every command with `lockPlan`.
 
+### Since `Exec/LockSeq.lean`: the tie compares lock SCOPES and ORDER (`checkLockOrder`), `checkFootprint` only words the message
+The verdict of the tie is `LProg.accepts (lockProg …) observed-scopes`; it knows one more legitimate way of locking FEWER keys than the
+footprint: **an executor that returns at once when `CheckTTL` finds its key expired** (`stopOnExpired`, RENAME/LMOVE/SMOVE on the source,
+EXISTS per key, SUNION dropping the key) never reaches its own lock — `LMOVE src dst` with an expired `src` locks `src`'s stripe only.  The
+footprint theorems are unaffected (a larger footprint is sound); the lock program models it exactly.
+
 ### Exceptions accepted by the tie (`Driver/Exec.lean` `checkFootprint`), each with its reason
 * **mode**: a read footprint whose Go executor takes the WRITE lock — `zrange`, `zrank`, `xrange` (`Lock` instead of `RLock`;
   harmless: a stronger lock).  The tie accepts a superset in mode for every command (a write-mode footprint must be write-locked; a
